@@ -506,6 +506,11 @@ pub fn c11(ctx: &Ctx) -> (CheckMeta, Outcome) {
                     let ncalls = want.len() / (wbits / 8) + 1;
                     for k in 0..ncalls {
                         for finisher in crate::wr::FINISHERS {
+                            if finisher == "drop_unwind" {
+                                // a destructor that reports a failure by panicking while the thread is already
+                                // unwinding aborts the process: nothing to observe (and nothing silent about it)
+                                continue;
+                            }
                             let backend = format!("adapterfail:{}", k);
                             out.cov.transitions += h.len() as u64;
                             out.cov.traces_validated += 1;
